@@ -19,16 +19,18 @@ NOT_ANY = lambda x: ("star", ("grp", ("seq", (("not", x), R("ANY")))))  # noqa: 
 
 HELPERS = (("n", "", S("a")), ("sc", "_", ("alt", (S("a"), S("b")))), ("ss", "_", ("seq", (R("n"), S("b")))))
 T_OPT = (S("a"), S("ab"), S("b"), ("ci", "a"), ("range", "a", "c"), R("ASCII_DIGIT"), R("ANY"), R("n"), R("sc"), R("ss"),
-         NOT_ANY(S("b")), NOT_ANY(("grp", ("alt", (S("a"), S("b"))))), NOT_ANY(R("sc")), NOT_ANY(R("n")))
+         NOT_ANY(S("b")), NOT_ANY(("grp", ("alt", (S("a"), S("b"))))), NOT_ANY(R("sc")), NOT_ANY(R("n")),
+         # stop strings that overlap / are listed after a shorter one they contain
+         NOT_ANY(("grp", ("alt", (S("b"), S("ab"))))), NOT_ANY(("grp", ("alt", (S("1"), S("a1"), S("b"))))))
 SIGMA = "ab1"
 PASS_NAMES = ("unroll", "skip", "inline built-in", "squash_choice", "inline silent")
 
 BOUNDS = {
     # wide: list of (n, trivia, mods, max_inputs) with the 8 main configurations (generated code compared too)
     # deep: list of (n, trivia, mods, max_inputs) with all 278 configurations (interpreted)
-    "quick": {"wide": [(2, ("none", "ws", "cm2", "ws_choice", "cm1"), ("", "@"), 45), (3, ("none", "cm1"), ("",), 30)],
+    "quick": {"wide": [(2, ("none", "ws", "cm2", "ws_choice", "cm1", "ws_overlap"), ("", "@"), 45), (3, ("none", "cm1"), ("",), 30)],
               "deep": [(2, ("none", "cm1"), ("",), 30)]},
-    "thorough": {"wide": [(3, ("none", "ws", "cm2", "both", "ws_choice", "cm1"), ("", "@", "$"), 130), (4, ("none", "cm1"), ("",), 45)],
+    "thorough": {"wide": [(3, ("none", "ws", "cm2", "both", "ws_choice", "cm1", "ws_overlap"), ("", "@", "$"), 130), (4, ("none", "cm1"), ("",), 45)],
                  "deep": [(2, ("none", "ws", "ws_choice", "cm1", "cm2"), ("", "@"), 45), (3, ("none", "cm1"), ("",), 30)]},
 }
 
@@ -221,7 +223,7 @@ def run(tier: str) -> int:
     rep.coverage = {
         "evaluations": agg.get("evaluations", 0),
         "distinct_nontrivial": agg.get("nontrivial", 0),
-        "rule": "grammars biased to what the passes pattern-match on: every expression with <= n nodes over {\"a\",\"ab\",\"b\",^\"a\",'a'..'c',ASCII_DIGIT,ANY,n,sc,ss,(!\"b\" ~ ANY)*,(!(\"a\"|\"b\") ~ ANY)*,(!sc ~ ANY)*,(!n ~ ANY)*, WHITESPACE/COMMENT when defined} "
+        "rule": "grammars biased to what the passes pattern-match on: every expression with <= n nodes over {\"a\",\"ab\",\"b\",^\"a\",'a'..'c',ASCII_DIGIT,ANY,n,sc,ss,(!\"b\" ~ ANY)*,(!(\"a\"|\"b\") ~ ANY)*,(!sc ~ ANY)*,(!n ~ ANY)*,(!(\"b\"|\"ab\") ~ ANY)*,(!(\"1\"|\"a1\"|\"b\") ~ ANY)*, WHITESPACE/COMMENT when defined} "
                 "(sc = _{ \"a\" | \"b\" }, ss = _{ n ~ \"b\" }) with all unary operators and ~ |, x trivia configuration x start modifier, plus grammars with a user rule named SKIP, tagged groups and built-ins; "
                 "optimizer configurations: the DEFAULT_OPTIMIZER object, the default pipeline, the pipeline applied twice, each of the 5 exported passes alone (these 8 also through generate()), "
                 "every sequence of passes of length 2 and 3 (150) and all 120 permutations of the five (interpreted). Each (chunk, configuration) runs in its own forked child, baseline first. "
